@@ -33,6 +33,7 @@ Definition TYPES : list (bool * N) := @@TYPES@@.
 Definition pi (d : cdata) : list Z := flat_map (fun sb => oz (parse_integer (fst sb) (snd sb) d)) TYPES.
 Definition pf (std : option N) (d : cdata) : list Z := on (parse_float (fun _ => std) d).
 Definition pb (d : cdata) : list Z := ob3 (parse_bool d).
+Definition ppp (std : option N) (t : list N) : list Z := pi (DString t) ++ pf std (DString t) ++ pb (DString t).
 Definition ovb (o : option bool) : res bool := match o with Some b => Val b | None => Pan "validator" end.
 @@VALIDATE@@
 Definition SP (i : N) : cdspec := nth (N.to_nat i) t_cdata CUInt.
@@ -51,6 +52,8 @@ Definition rt (stdfmt : list N) (stdparse : option N) (sp : N) (ver : N) (v : cd
   | Val false => [7%Z]
   | _ => [9%Z]
   end.
+Definition pcr (sp : N) (ver : N) (t : list N) : list Z :=
+  prs None sp ver t ++ chk sp ver (DString t) ++ rt [] None sp ver (DString t).
 """
 
 
@@ -194,14 +197,68 @@ def validate_def(kinds):
     return o
 
 
-def model_eval(ctx, kinds, items, spec_map, shards=12, chunk=400):
+def make_jobs(items, spec_map):
+    """group observations that share their (expensive to elaborate) text literal into one Coq term.
+    a job = (coq term : list Z, [(item index, decoder(Dec) -> canonical string)])"""
+    jobs = []
+    by_text = {}      # hex text -> {kind: item index}   for PI / PF / PB
+    by_triple = {}    # (spec, ver, S:hex) -> {kind: item index}   for PARSE / CHK / RT on strings
+    for i, (case, rest) in enumerate(items):
+        f = case.split(" ")
+        if f[0] in ("PI", "PF", "PB"):
+            by_text.setdefault(f[1] if len(f) > 1 else "", {})[f[0]] = i
+        elif f[0] == "PARSE" and "std=" not in rest:
+            by_triple.setdefault((f[1], f[2], f[3] if len(f) > 3 else ""), {})["PARSE"] = i
+        elif f[0] in ("CHK", "RT") and f[3].startswith("S:"):
+            by_triple.setdefault((f[1], f[2], f[3][2:]), {})[f[0]] = i
+    done = set()
+
+    def pi_r(d):
+        xs = [d.take() for _ in range(24)]
+        return " ".join("%s:%s" % (t, xs[2 * j + 1] if xs[2 * j] == 1 else "-") for j, t in enumerate(TYPES))
+
+    def pf_r(d):
+        fl, v = d.take(), d.take()
+        return "%016x" % v if fl == 1 else "-"
+
+    def pb_r(d):
+        return {0: "F", 1: "T", 2: "-"}[d.take()]
+
+    for hx, ks in by_text.items():
+        if len(ks) < 2:
+            continue
+        std = "None"
+        if "PF" in ks:
+            std = coq_optN(kv(items[ks["PF"]][1], "std"))
+        term = "ppp %s %s" % (std, coq_bytes(bytes.fromhex(hx)))
+        outs = []
+        for kname, dec in (("PI", pi_r), ("PF", pf_r), ("PB", pb_r)):
+            outs.append((ks.get(kname), dec))
+        jobs.append((term, outs))
+        done.update(ks.values())
+    for (sp, ver, hx), ks in by_triple.items():
+        if len(ks) < 2:
+            continue
+        term = "pcr %d %s %s" % (spec_map[int(sp)], ver, coq_bytes(bytes.fromhex(hx)))
+        outs = [(ks.get("PARSE"), lambda d: d.ocd()),
+                (ks.get("CHK"), lambda d: {0: "0", 1: "1", 9: "PANIC"}[d.take()]),
+                (ks.get("RT"), lambda d: d.ocd())]
+        jobs.append((term, outs))
+        done.update(ks.values())
+    for i, (case, rest) in enumerate(items):
+        if i in done:
+            continue
+        term, rend = to_coq(case, rest, spec_map)
+        jobs.append((term, [(i, (lambda d, rend=rend: rend(d.xs)))]))
+    return jobs
+
+
+def model_eval(ctx, kinds, items, spec_map, shards=14, chunk=400):
     """items: list of (case, rest). returns list of model result strings (same order) or (None, err)"""
     import concurrent.futures as cf
     prelude = PRELUDE.replace("@@TYPES@@", TYPES_COQ).replace("@@VALIDATE@@", validate_def(kinds))
-    terms = []
-    for case, rest in items:
-        terms.append(to_coq(case, rest, spec_map))
-    groups = [list(range(k, len(items), shards)) for k in range(shards)]
+    jobs = make_jobs(items, spec_map)
+    groups = [list(range(k, len(jobs), shards)) for k in range(shards)]
 
     def one(k, idxs):
         if not idxs:
@@ -209,20 +266,24 @@ def model_eval(ctx, kinds, items, spec_map, shards=12, chunk=400):
         t = prelude
         for c in range(0, len(idxs), chunk):
             part = idxs[c:c + chunk]
-            t += "Eval vm_compute in [%s].\n" % ";\n ".join(terms[i][0] for i in part)
+            t += "Eval vm_compute in [%s].\n" % ";\n ".join(jobs[j][0] for j in part)
         rc, out, dt = lib.coq_eval("c20_cases_%d" % k, t, timeout=1500)
         if rc != 0:
             return {"error": out[-1500:]}
         lists = re.findall(r"\[([-0-9;%Z()\s]*)\]", out)
         if len(lists) != len(idxs):
-            return {"error": "shard %d: %d results for %d cases\n%s" % (k, len(lists), len(idxs), out[-600:])}
+            return {"error": "shard %d: %d results for %d terms\n%s" % (k, len(lists), len(idxs), out[-600:])}
         r = {}
-        for i, l in zip(idxs, lists):
+        for j, l in zip(idxs, lists):
             xs = [int(x) for x in re.findall(r"-?\d+", l)]
-            try:
-                r[i] = terms[i][1](xs)
-            except Exception as ex:
-                r[i] = "DECODE-ERROR %r %r" % (ex, xs[:20])
+            d = Dec(xs)
+            for (i, dec) in jobs[j][1]:
+                try:
+                    v = dec(d)
+                except Exception as ex:
+                    v = "DECODE-ERROR %r %r" % (ex, xs[:20])
+                if i is not None:
+                    r[i] = v
         return r
 
     res = {}
@@ -352,6 +413,7 @@ def run(tier, seed, replay_cases=None):
 
     avh = lib.harness_build(ctx, hooks=True)
     prop_fail = []       # concrete inputs on which the PROPERTY fails (not just model/impl disagreement)
+    corr_diff = []       # model/implementation disagreements (candidates)
     if avh:
         if replay_cases is not None:
             p = os.path.join(WORK, "c20_replay_cases.txt")
@@ -382,6 +444,10 @@ def run(tier, seed, replay_cases=None):
                 unknown_fails.append(l)
         ctx.oblige("oracle:integer exact / never a different number / bool / float prefixed exact / specials / format->parse (direct, on the implementation)",
                    not unknown_fails, "\n".join(unknown_fails[:6]))
+        # failures on texts of the lexical forms first (they are the clearest witnesses)
+        order = {"integer-exact": 0, "float-prefixed": 0, "bool": 0, "float-special": 0, "float-zero": 0, "format-parse": 0,
+                 "integer-from-u64": 0, "float-from-u64": 0, "u64-print-parse": 0}
+        unknown_fails.sort(key=lambda l: order.get(l.split(" ")[1], 1))
         prop_fail += unknown_fails
         ctx.coverage["oracle_failures_in_known_classes"] = {k: len(v) for k, v in known_hits.items()}
 
@@ -411,6 +477,7 @@ def run(tier, seed, replay_cases=None):
                     ctx.samples.append({"case": c[:120], "impl": impl_norm(c, r_)[:160], "model": m[:160]})
                 # a disagreement is a candidate; it is a property failure only if the direct oracle says so too
                 ctx.coverage["correspondence_differences"] = len(diff)
+                corr_diff.extend("%s impl=%s model=%s" % (c, a[:300], b[:300]) for (c, a, b) in diff[:30])
 
         # ---- known findings: replay
         for e in lib.load_known("C20"):
@@ -433,10 +500,12 @@ def run(tier, seed, replay_cases=None):
             ctx.violation({"property": "C20", "kind": "failing-input", "what": prop_fail[:20],
                            "cases": [l.split(" : ")[0].split(" ", 2)[2] for l in prop_fail if l.startswith("ORACLE-FAIL")][:50],
                            "format": "ORACLE-FAIL <class> <case> : <what>; a case is `PI|PF|PB <hex of the text>`, `PFU <u64>`, `RT <spec#> <version> <value>` ...",
-                           "broken_obligations": ctx.broken,
+                           "broken_obligations": ctx.broken, "model_vs_implementation": corr_diff,
                            "how_to_replay": "./check C20 --replay <this file>   (or: avh values eval <file with the cases>)"})
         else:
             ctx.violation({"property": "C20", "kind": "obligation", "broken_obligations": ctx.broken,
+                           "model_vs_implementation": corr_diff,
+                           "cases": [d.split(" impl=")[0] for d in corr_diff],
                            "detail": [o for o in ctx.obligations if not o[1]]}, found_input=False)
     return ctx.finish(
         level="proof",
